@@ -48,7 +48,8 @@ CInit(sc) ==
       fcount |-> [c \in 1..NC(sc) |-> 0],
       ceof   |-> [c \in 1..NC(sc) |-> FALSE],
       junk   |-> [c \in 1..NC(sc) |-> FALSE],
-      fbad   |-> [c \in 1..NC(sc) |-> FALSE] ]   \* a frame-order violation was already reported
+      fbad   |-> [c \in 1..NC(sc) |-> FALSE],
+      local  |-> [c \in 1..NC(sc) |-> ""] ]    \* the client's own socket address (C02)   \* a frame-order violation was already reported
                                                    \* on c: later frame guards would be echoes
 
 IsStop(x) == (x.cls \notin {"ok", "r505"}) \/ (x.cls = "ok" /\ x.last)
@@ -159,7 +160,9 @@ Deliver(s, sc, e) ==
                    "DeliveredAfterStop")
               \o V(Complete(s, sc, c, m), "C15", "IncompleteDelivered")
               \o V(e.headok, (IF Fam(sc) \in {"C09", "C13", "C03"} THEN Fam(sc) ELSE "C02"), "HeadMismatch")
-              \o V(m \notin s.deliv[c + 1], "C07", "DeliveredTwice") ]
+              \o V(m \notin s.deliv[c + 1], "C07", "DeliveredTwice")
+              \* C02: the peer address is the client's socket address on TCP, absent otherwise
+              \o V(IF sc.transport = "tcp" THEN e.peer = s.local[c + 1] ELSE e.peer = "", "C02", "PeerAddress") ]
 
 Ask(s, sc, e) == [s |-> [s EXCEPT !.asked[e.c + 1][e.m + 1] = @ + 1], v |-> <<>>]
 
@@ -305,6 +308,7 @@ Quiescent(s, sc, e, rb, dropped) ==
 
 CStep(s, sc, e, rb, dropped) ==
     CASE e.ev = "CSend" -> CSend(s, sc, e)
+      [] e.ev = "COpen" /\ e.ok -> [s |-> [s EXCEPT !.local[e.c + 1] = e.local], v |-> <<>>]
       [] e.ev = "CHalf" -> CFault(s, sc, e, "half")
       [] e.ev = "CClose" -> CFault(s, sc, e, "close")
       [] e.ev = "CReset" -> CFault(s, sc, e, "reset")
